@@ -707,6 +707,9 @@ func (g *Gen) stmt(depth int) []Stmt {
 		if g.R.Chance(25) {
 			return g.gotoBackwardCaptured(d)
 		}
+		if g.R.Chance(20) {
+			return g.lateClosureJump(d)
+		}
 		return g.gotoShape(depth, d)
 	case 15:
 		return g.pcallShape(depth, d)
